@@ -993,8 +993,9 @@ func (b *BaseStore) replicationLoadComplete(ctx context.Context, logs []ipfslog.
 	for _, log := range logs {
 		_, err := oplog.Join(log, -1)
 		if err != nil {
+			// a rejected log must not keep the other fetched logs from being merged
 			b.Logger().Error("unable to join logs", zap.Error(err))
-			return
+			continue
 		}
 
 		entries = append(entries, log.GetEntries().Slice()...)
